@@ -91,7 +91,7 @@ def run_checks_scratch(sid, tier, props, extra=''):
             t0 = time.time()
             rc, o = sh(f'./check {p} {tier} --noevidence --repo {dst} {extra}', cwd='/verif', timeout=14400)
             lines = [l for l in o.splitlines() if l.startswith(('VIOLATION', '  harness', 'KNOWN', 'INCONCLUSIVE', 'symgo:'))]
-            out[p + ('' if tier == 'quick' else '@' + tier)] = {'tier': tier, 'exit': rc, 'detected': rc == 1, 'wall_s': round(time.time() - t0, 1), 'lines': [l[:260] for l in lines[:6]], 'on': 'scratch copy of /repo with the patch applied'}
+            out[p if (tier == 'quick' or os.environ.get('SEED_SCRATCH')) else p + '@' + tier] = {'tier': tier, 'exit': rc, 'detected': rc == 1, 'wall_s': round(time.time() - t0, 1), 'lines': [l[:260] for l in lines[:6]], 'on': 'scratch copy of /repo with the patch applied'}
     finally:
         shutil.rmtree(tmp, ignore_errors=True)
     return out
@@ -123,7 +123,7 @@ if cmd == 'ingest':
     meta = {'id': sid, 'breaks': sid[:3], 'confirmed': bool(ok), 'confirmation': conf, 'what': '', 'needs': '', 'ran': ['tools_seeded.py ingest ' + sid]}
     if not ok:
         json.dump(meta, open(os.path.join(d, 'meta.json'), 'w'), indent=1); print('NOT CONFIRMED'); sys.exit(1)
-    meta['checks'] = run_checks(sid, tier, [sid[:3]])
+    meta['checks'] = run_checks_scratch(sid, tier, [sid[:3]]) if os.environ.get('SEED_SCRATCH') else run_checks(sid, tier, [sid[:3]])
     json.dump(meta, open(os.path.join(d, 'meta.json'), 'w'), indent=1)
     print(json.dumps(meta['checks'], indent=1))
 elif cmd == 'run':
